@@ -271,9 +271,11 @@ def i_JAL(ins, fmap):
 
 def i_JALR(ins, fmap):
     dst, src1, imm = ins.operands
+    # the target uses rs1 *before* the link is written (rd may be rs1):
+    target = fmap((src1 + imm) & cst(-2, 32))
     if dst is not zero:
         fmap[dst] = fmap(pc + ins.length)
-    fmap[pc] = fmap((src1 + imm) & cst(-2, 32))
+    fmap[pc] = target
 
 
 def i_BEQ(ins, fmap):
